@@ -289,7 +289,7 @@ func (h *hsInterp) exec(fn *ssa.Function, in hsIn) []hsOut {
 				// state setter with a constant
 				if containsFn(h.a.setterFull, g) || containsFn(h.a.setterLocked, g) {
 					arg := stripConv(x.Call.Args[len(x.Call.Args)-1])
-					if cs, ok := constString(arg); ok {
+					if cs, ok := stateConst(arg); ok {
 						cur.S = cs
 					}
 					continue
